@@ -333,13 +333,15 @@ def random_choice_case():
     return case()
 
 
+HYP = {"choice": (lambda ctx: random_choice_case(), check_choice)}
+
 def run(ctx):
     quick = ctx.tier == "quick"
     maxlen = 3 if quick else 4
     ctx.parallel("shard_choice", [(ci, multi, maxlen, d, a) for ci in range(len(CHOICE_LISTS)) for multi in (False, True)
                                   for d in range(3) for a in (None, 1, 2, 3)])
     ctx.exhaustive("choice", True, "4 choice lists x single/multi x 3 defaults x 4 attempt limits x all scripts up to length %d" % maxlen)
-    ctx.hyp(random_choice_case(), lambda c: check_choice(ctx, c), 600 if quick else 30000, salt=1)
+    ctx.hyp_sharded("choice", 4000 if quick else 60000, salt=1)
     for ch in (["a", "b", "c"], ["alpha", "beta"], ["x"], ["a b", "c-d", "e_f"]):
         for i in range(len(ch)):
             check_index_value(ctx, {"choices": ch, "index": i})
